@@ -100,6 +100,7 @@ func (e *Engine) callFunction(st *State, fr *Frame, callee *ssa.Function, bindin
 				}
 			}
 			st.frames = append(st.frames, nf)
+			e.entryEvents(st, nf)
 			if e.isLoopHeader(nf.block) {
 				e.atLoopHeader(st, nf, nf.block)
 			}
@@ -157,6 +158,7 @@ func (e *Engine) unknownCall(st *State, name string, args []Val, resT types.Type
 	if !strings.HasPrefix(name, "callback:") {
 		e.unmodelled[name] = true
 	}
+	st.bumpFrontier()
 	if all {
 		for _, h := range sortedKeys(st.heaps) {
 			if h != "$alloc" {
@@ -168,7 +170,6 @@ func (e *Engine) unknownCall(st *State, name string, args []Val, resT types.Type
 			e.havocReachable(st, a)
 		}
 	}
-	st.bumpFrontier()
 	return e.freshResult(st, "ret", resT)
 }
 
@@ -463,13 +464,17 @@ func (e *Engine) callByContract(st *State, fr *Frame, callee *ssa.Function, ct *
 		_ = i
 		_ = fv
 	}
-	for i, rq := range ct.Requires {
-		nm := rq.Name
-		if nm == "" {
-			nm = fmt.Sprintf("%d", i)
+	for _, g := range ct.GhostParam {
+		// ghost arguments are passed by name from the caller's ghost variables
+		if v, ok := st.unit.ghostVars[g.Name]; ok {
+			env.vars[g.Name] = v
+		} else {
+			env.errf("ghost parameter %s of %s is not available in the caller", g.Name, funcDisplayName(callee))
 		}
-		name := e.siteName(st, fr, "requires@"+funcDisplayName(callee)+"["+nm+"]", pos, ins)
-		st.check("requires", name, env.evalBool(rq.Expr), pos)
+	}
+	for _, rq := range env.expand(ct.Requires) {
+		name := e.siteName(st, fr, "requires@"+funcDisplayName(callee)+"["+rq.name+"]", pos, ins)
+		st.check("requires", name, rq.term, pos)
 	}
 	// lock preconditions
 	e.checkHolds(st, fr, callee, ct, env, pos, ins)
@@ -478,13 +483,13 @@ func (e *Engine) callByContract(st *State, fr *Frame, callee *ssa.Function, ct *
 	for k, v := range st.heaps {
 		snap[k] = v
 	}
-	e.havocModifies(st, env, ct)
 	st.bumpFrontier()
+	e.havocModifies(st, env, ct)
 	res := e.freshResult(st, "res_"+callee.Name(), callee.Signature.Results())
 	post := &Env{eng: e, st: st, pkg: env.pkg, vars: env.vars, oldSnap: snap, hasOld: true, where: "ensures of " + funcDisplayName(callee)}
 	e.bindResults(post, callee, res)
-	for _, en := range ct.Ensures {
-		st.assume(post.evalBool(en.Expr))
+	for _, en := range post.expand(ct.Ensures) {
+		st.assume(en.term)
 	}
 	return res
 }
